@@ -11,11 +11,24 @@ open Gozod
 inductive NPred where
   | cmp (op : CmpOp) (bound : Num)       -- Gt/Gte/Lt/Lte/Min/Max/Positive/Negative/NonNegative/NonPositive
   | mult (d : Num)                       -- MultipleOf / Step with integer operands
+  | finite                               -- Float.Finite: neither NaN nor ±Inf
+  | safe                                 -- Safe: within ±(2^53 − 1) (Gte then Lte; at most one of the two can fail)
   deriving Repr, Inhabited
+
+def safeBound (v : Num) (n : Int) : Num :=
+  match v with
+  | .f _ => .f (F.ofInt n)     -- float schemas take float64 bounds
+  | _ => .i n                  -- integer schemas take int64 bounds
+
+def isFinite : Num → Bool
+  | .f .nan | .f .pinf | .f .ninf => false
+  | _ => true
 
 def holds : NPred → Num → Bool
   | .cmp op b, v => implCmp op v b
   | .mult d, v => multipleOfInts v d
+  | .finite, v => isFinite v
+  | .safe, v => implCmp .gte v (safeBound v (-(2 ^ 53 - 1))) && implCmp .lte v (safeBound v (2 ^ 53 - 1))
 
 /-- The documented meaning: the mathematical relation. -/
 def specHolds : NPred → Num → Bool
@@ -27,6 +40,8 @@ def specHolds : NPred → Num → Bool
     | v, d =>
       let iv : Num → Int := fun n => match n with | .i x => x | .u x => x | .f _ => 0
       specMultipleOfInt (iv v) (iv d)
+  | .finite, v => isFinite v
+  | .safe, v => specCmp .gte v (safeBound v (-(2 ^ 53 - 1))) && specCmp .lte v (safeBound v (2 ^ 53 - 1))
 
 def env : Env NPred Unit Unit Num := ⟨holds, fun _ v => v, fun _ v => v⟩
 def specEnv : Env NPred Unit Unit Num := ⟨specHolds, fun _ v => v, fun _ v => v⟩
